@@ -35,7 +35,9 @@ ASSUMPTIONS = [
 RULE = ("histories of 8-30 operations over both families: dataset builder (entity classes, entities, interactions with new attributes and repeats, relationship "
         "classes, scalar/list/vector attributes, time and row filters, clear) -> build -> derive a builder from the dataset / keep using the producing builder / "
         "split (records, users, temporal) ; pipeline builder over importable functions and configurable/trainable components -> build -> modify() and rewire / "
-        "replace / add / alias / clear / change default, clone(), train the clone, run, keep using the producing builder, build again; after every step every "
+        "replace / add / alias / clear / change default, clone(), train the clone, run, keep using the producing builder, build again (one builder producing several "
+        "pipelines with and without edits in between, components added by class + settings and by instance, each sibling trained on other data and run; "
+        "trained pipelines keep being re-observed, and two pipelines may hold the same component object only where that is specified); after every step every "
         "built object is re-observed (config JSON, hash, wiring, node_input_connections, private wiring, run results; schema, tables, vocabularies, matrices, "
         "attributes, saved form); plus standard pipelines around shipped scorers trained and run with every ItemList argument digested before and after each "
         "component call; non-trivial = at least one object observed across >= 3 later steps of which >= 1 is a mutation through a derived or producing builder; "
@@ -45,7 +47,7 @@ TRAINABLE_CODES = ["vcomp:Learner"]
 SIGS = {"inc": ["x"], "neg": ["x"], "add": ["x", "y"], "mix3": ["a", "b", "c"], "twice": ["x"], "Scale": ["x"], "Affine": ["x", "y"],
         "Learner": ["x"], "NoSettings": ["x"]}
 STYLES = {"inc": ["fn"], "neg": ["fn"], "add": ["fn"], "mix3": ["fn"], "twice": ["fn"], "Scale": ["class", "instance"], "Affine": ["class", "instance"],
-          "Learner": ["class"], "NoSettings": ["class", "instance"]}
+          "Learner": ["class", "class", "instance"], "NoSettings": ["class", "instance"]}
 SHIPPED = ["lenskit.basic.bias:BiasScorer", "lenskit.basic.popularity:PopScorer", "lenskit.knn.item:ItemKNNScorer", "lenskit.knn.user:UserKNNScorer",
            "lenskit.als._explicit:BiasedMFScorer", "lenskit.als._implicit:ImplicitMFScorer", "lenskit.funksvd:FunkSVDScorer",
            "lenskit.sklearn.svd:BiasedSVDScorer", "lenskit.basic.history:KnownRatingScorer"]
@@ -253,13 +255,40 @@ def gen_history(rng):
         S.dblds[d0]["rels"]["rating"] = True
         S.dblds[d0]["ents"].setdefault("user", set())
     dbuild(d0)
+    # a second dataset with another name and other items: training on it must be distinguishable
+    d1 = new_dbld("d1")
+    ops.append({"op": "db_entities", "b": d1, "cls": "item", "ids": list(range(20, 20 + rng.randint(3, 9)))})
+    rows = gen_ratings(rng, users, list(range(20, 23)), 5)
+    ops.append({"op": "db_interactions", "b": d1, "cls": "rating", "rows": rows, "columns": ["user_id", "item_id", "rating", "timestamp"],
+                "entities": ["user", "item"], "default": True, "repeats": False})
+    S.dblds[d1]["rels"]["rating"] = True
+    S.dblds[d1]["ents"].setdefault("user", set())
+    dbuild(d1)
     p0 = new_pbld(rng.choice([None, "pipe"]))
     for n in ("a", "b"):
         ops.append({"op": "pb_input", "b": p0, "name": n})
         S.pblds[p0]["nodes"][n] = "in"
     for _ in range(rng.randint(2, 5)):
         pb_step(p0)
+    if "Learner" not in S.pblds[p0]["comps"].values() and rng.chance(3, 4):
+        free = [x for x in ["m1", "m2"] if x not in S.pblds[p0]["nodes"]]
+        st = rng.choice(STYLES["Learner"])
+        ops.append({"op": "pb_add", "b": p0, "name": free[0], "comp": "Learner", "style": st, "settings": {"bias": rng.randint(0, 9)},
+                    "ins": [["x", "a"]]})
+        S.pblds[p0]["nodes"][free[0]] = "comp"
+        S.pblds[p0]["comps"][free[0]] = "Learner"
+        S.pblds[p0]["tok"][free[0]] = ("ctor",) if st == "class" else ("inst", S.tok())
     pbuild(p0)
+    # one builder produces several pipelines (with and without edits in between); each is trained on other data and run
+    if rng.chance(2, 3):
+        ops.append({"op": "ptrain", "p": len(S.pipes) - 1, "d": 0})
+        ops.append({"op": "prun", "p": len(S.pipes) - 1, "inputs": {"a": 1, "b": 2}})
+        for _ in range(rng.randint(1, 2)):
+            if rng.chance(1, 2):
+                pb_step(p0)
+            pbuild(p0)
+            ops.append({"op": "ptrain", "p": len(S.pipes) - 1, "d": rng.choice([1, 1, 0])})
+            ops.append({"op": "prun", "p": len(S.pipes) - 1, "inputs": {"a": 4, "b": 0}})
 
     # --- the continuation ---
     for _ in range(rng.randint(6, 18)):
@@ -283,7 +312,6 @@ def gen_history(rng):
         elif kind == "ptrain":
             ok = [j for j, p in enumerate(S.pipes)
                   if all(not (learner_toks(p) & learner_toks(q)) for k, q in enumerate(S.pipes) if k != j)]
-            ok = [j for j in ok if j != 0] or []      # the first pipeline is the one being watched: train derivatives only
             if ok and S.dsets:
                 ops.append({"op": "ptrain", "p": rng.choice(ok), "d": rng.below(len(S.dsets))})
         elif kind == "prun":
@@ -507,6 +535,16 @@ def coq_term(case, obs):
 P_CONST = ["name", "edges", "aliases", "default", "hash", "config", "nic", "private_edges"]
 
 
+def render_history(case, obs, t0, t1):
+    "the operations from step t0 to step t1, with the handles they worked on"
+    out = []
+    for op, st in list(zip(case["ops"], obs["steps"]))[t0:t1 + 1]:
+        h = ",".join(f"{k}{op[k]}" for k in ("b", "p", "d") if k in op)
+        extra = op.get("name") or op.get("alias") or op.get("cls") or op.get("how") or ""
+        out.append(f"{op['op']}({h}{':' + str(extra) if extra else ''}){'!' + st['result']['err'] if st['result']['err'] else ''}")
+    return " -> ".join(out)
+
+
 def oracle(case, obs):
     v = []
 
@@ -534,6 +572,16 @@ def oracle(case, obs):
     for t, (op, st) in enumerate(zip(case["ops"], obs["steps"])):
         if op["op"] == "ptrain" and not st["result"]["err"]:
             trained.add(op["p"])
+        # component instances: two pipelines hold the same object only where that is specified (modify(), caller's instance)
+        pipes = st["snap"]["pipes"]
+        for j in range(len(pipes)):
+            for k2 in range(j + 1, len(pipes)):
+                for n, (ident, tok) in pipes[j].get("inst", {}).items():
+                    for n2, (ident2, tok2) in pipes[k2].get("inst", {}).items():
+                        if ident == ident2 and tok != tok2 and once(("inst", j, k2, n)):
+                            bad(f"component-instance-shared:after-{op['op']}",
+                                f"pipelines #{j} and #{k2} hold the same component object for node {n} although each should have its own; "
+                                f"history: {render_history(case, obs, 0, t)}")
         for j, o in enumerate(st["snap"]["pipes"]):
             if j not in first_p:
                 first_p[j] = (t, o)
@@ -543,12 +591,14 @@ def oracle(case, obs):
                 if o[f] != o0[f] and once(("p", j, f)):
                     bad(f"pipeline-changed:{f}:after-{op['op']}", f"pipeline #{j} built at step {t0} has a different {f} after step {t} ({op['op']}): "
                                                                  f"{json.dumps(o0[f])[:120]} -> {json.dumps(o[f])[:120]}")
-            if j not in trained:
+            if not (op["op"] == "ptrain" and op["p"] == j and not st["result"]["err"]):
                 for f in ("nodes", "runs"):
                     if o[f] != o0[f] and once(("p", j, f)):
-                        bad(f"pipeline-changed:{f}:after-{op['op']}", f"pipeline #{j} (never trained itself) has different {f} after step {t} ({op['op']})")
+                        bad(f"pipeline-changed:{f}:after-{op['op']}", f"pipeline #{j} (not trained since it was last observed) has different {f} after step {t} "
+                            f"({op['op']}): {json.dumps(o0[f])[:100]} -> {json.dumps(o[f])[:100]}; history: {render_history(case, obs, t0, t)}")
             else:
-                first_p[j] = (t0, {**o0, "nodes": o["nodes"], "runs": o["runs"]}) if op["op"] == "ptrain" and op["p"] == j else first_p[j]
+                # the pipeline itself was trained in this step: its component state and results are re-recorded from here on
+                first_p[j] = (t, {**o0, "nodes": o["nodes"], "runs": o["runs"]})
         for j, o in enumerate(st["snap"]["dsets"]):
             if j not in first_d:
                 first_d[j] = (t, o)
@@ -607,21 +657,36 @@ def sample(case, obs):
                             "last": {"pipes": [{k: p[k] for k in ("name", "edges", "aliases", "default", "hash")} for p in obs["steps"][-1]["snap"]["pipes"]][:2]}}}
 
 
+_SHRINK_BUDGET = [45]
+
+
 def shrink(case, fails):
+    "drop operations from the end, then single non-creating operations; every trial replays the whole history, so the effort is capped"
     if case["kind"] != "history":
         return case
     ops = list(case["ops"])
-    # drop operations from the end first (handles stay valid), then singles that create nothing
-    while len(ops) > 3 and fails({**case, "ops": ops[:-1]}):
-        ops = ops[:-1]
+
+    def trial(c):
+        if _SHRINK_BUDGET[0] <= 0:
+            return False
+        _SHRINK_BUDGET[0] -= 1
+        return fails(c)
+
+    lo, hi = 3, len(ops)          # shortest failing prefix by bisection
+    while lo < hi and _SHRINK_BUDGET[0] > 0:
+        mid = (lo + hi) // 2
+        if trial({**case, "ops": ops[:mid]}):
+            hi = mid
+        else:
+            lo = mid + 1
+    if hi < len(ops) and trial({**case, "ops": ops[:hi]}):
+        ops = ops[:hi]
     creating = {"pnew", "pbuild", "pmodify", "pclone", "dnew", "dfrom", "dbuild", "dsplit"}
     i = len(ops) - 2
-    steps = 0
-    while i >= 0 and steps < 40:
+    while i >= 0 and _SHRINK_BUDGET[0] > 0:
         if ops[i]["op"] not in creating:
             cand = ops[:i] + ops[i + 1:]
-            steps += 1
-            if fails({**case, "ops": cand}):
+            if trial({**case, "ops": cand}):
                 ops = cand
         i -= 1
     return {**case, "ops": ops}
